@@ -418,6 +418,6 @@ pub fn main(o: &Opts) -> i32 {
         rep.caps_hit.push(format!("time budget reached: {} cases skipped", skipped));
     }
     rep.exhaustive = skipped == 0;
-    rep.assumptions = vec!["the r-weighted single check could differ from (b) and (c) only with probability ~1/|F|; treated as impossible".into(), "challenges are taken from the recorded verifier run (C06/C18 judge how they are derived)".into(), "|L| != |R| shapes belong to C08".into()];
+    rep.assumptions = vec!["the r-weighted single check could differ from (b) and (c) only with probability ~1/|F|; treated as impossible".into(), "challenges are taken from the recorded verifier run (C06/C18 judge how they are derived)".into(), "|L| != |R| shapes belong to C08".into(), "statements range over points of the prime-order subgroup (commitments, Pedersen bases, generators); DESIGN 8.6 lesson 11 explains why the relations are not defined outside it".into()];
     rep.finish()
 }
